@@ -79,7 +79,7 @@ def record_and_validate(chk, flavour, exe_name, scen, total_runs, opts, seed_off
     return results, d, allruns, exe
 
 
-def confirm(exe, run_events, scen, pid, sig, workdir, module="TraceCircuit", cfg=None):
+def confirm(exe, run_events, scen, pid, sig, workdir, module="TraceCircuit", cfg=None, extra_args=()):
     """Re-record one run alone from its Reset line and validate again: True if the same property fails again."""
     reset = [e for e in run_events if e.get("e") in ("Reset", "AlgoBegin")]
     if not reset:
@@ -89,7 +89,7 @@ def confirm(exe, run_events, scen, pid, sig, workdir, module="TraceCircuit", cfg
     with open(rp, "w") as f:
         f.write(json.dumps(reset[0]) + "\n")
     out = os.path.join(workdir, "confirm-%s.ndjson" % h)
-    rc, so, se = vlib.run_exe(exe, ["out=" + out, "replay=" + rp, "scen=" + scen], timeout=600)
+    rc, so, se = vlib.run_exe(exe, ["out=" + out, "replay=" + rp, "scen=" + scen] + list(extra_args), timeout=1500)
     if rc != 0:
         raise vlib.FrameworkError("replay recorder failed: %s" % (se or "")[-500:])
     res, reports = _validate(out, module, cfg)
@@ -129,6 +129,12 @@ def attribute(chk, results, pid, exe, scen, flavour, workdir, max_confirm=6, als
             if keep_events:
                 if not confirm_events(events, f["p"], f["sig"], workdir, module):
                     raise vlib.FrameworkError("TLC did not reject the stored events of run %s again" % rep["run"])
+            elif str(f["sig"]).startswith("timeout-"):
+                # a hang must repeat with five times the budget when the run is re-recorded alone; a run that was merely slow
+                # (loaded machine) is not a violation
+                if not confirm(exe, events, scen, f["p"], f["sig"], workdir, module=module, extra_args=["timeout=200"]):
+                    chk.cov["slow_runs_not_hangs"] = chk.cov.get("slow_runs_not_hangs", 0) + 1
+                    continue
             elif confirmed < max_confirm:
                 if not confirm(exe, events, scen, f["p"], f["sig"], workdir, module=module):
                     raise vlib.FrameworkError("rejection did not repeat when run %s was re-recorded alone: %s" % (rep["run"], text))
